@@ -193,6 +193,7 @@ func main() {
 	run.Def(M, "bytes", execBytes)
 	run.Def(M, "typed", execTyped)
 	run.Def(M, "stream", execStream)
+	run.Def(M, "queue", execQueue)
 	run.Def(M, "cycle", execCycle)
 	M.Gen = generate
 	run.Main(M)
@@ -272,6 +273,15 @@ func generate(w *run.W) {
 			}
 			a := &streamArgs{Text: b, Chunk: []int{0, 0, 1, 2, 3, 7, 64}[r.IntN(7)], UseNumber: r.IntN(3) == 0, Script: r.Uint64(), Steps: 10 + r.IntN(50)}
 			w.Do("stream", a)
+			if k%5 == 0 {
+				// a bytes.Buffer written and read alternately
+				qcfg := &gen.TextCfg{MaxDepth: 1 + r.IntN(3), MaxWidth: 1 + r.IntN(4)}
+				var vals []string
+				for n := 2 + r.IntN(6); n > 0; n-- {
+					vals = append(vals, string(gen.Value(r, qcfg))+pick(r, []string{"\n", "\n", " ", "\n\n"}))
+				}
+				w.Do("queue", &queueArgs{Values: vals, UseNumber: r.IntN(3) == 0, Script: r.Uint64()})
+			}
 			if w.WantSample() && k == 0 {
 				w.Sample(map[string]any{"exec": "stream", "text": string(b), "chunk": a.Chunk})
 			}
